@@ -1758,6 +1758,23 @@ func init() {
 	}
 	// font.nf: Read(Write(F)) is the explicit normal form of F (Lean prints nf F)
 	ops["font.nf"] = ops["font.meta"]
+	// font.file: the bytes (*Font).Write produces (model: writeFile composed from the codec models)
+	ops["font.file"] = func(f Fields) string {
+		font := f1FontFromFields(f)
+		if bad := f1OracleCheck(f, font); bad != "" {
+			return bad
+		}
+		extra, ok := f1FileArgs(font)
+		if !ok {
+			return "outside-file-class"
+		}
+		for k, v := range parseFields(extra) {
+			if f[k] != v {
+				return "bad-oracle:" + k
+			}
+		}
+		return "ok:" + hx(f1WriteFont(font))
+	}
 	areas["font"] = func(c *Ctx) {
 		for _, tag := range []string{"und-Latn-x-latn", "und-Zzzz-x-dflt", "en-Latn-x-latn-ENG", "de-Latn-x-latn-DEU", "nl", "bn", "und-Beng", "zh-Hans"} {
 			c.Case(Direct, "font.twice", "tag="+tag+" n=20", true)
@@ -1828,7 +1845,9 @@ func init() {
 			c.Stat("sweep", "CID matrices x FDs x colliding keys")
 		}
 		for c.evals < c.N {
-			if c.Rng.Chance(3, 5) {
+			if c.Rng.Chance(1, 6) {
+				f1EmitFont(c, f1GenFileFont(c), true)
+			} else if c.Rng.Chance(3, 5) {
 				f1EmitFont(c, f1GenFont(c), true)
 			} else {
 				args := f1GenTables(c)
@@ -1850,6 +1869,67 @@ func init() {
 	}
 }
 
+// f1FileArgs: the payload fields of a font.file line (glyph data, maxp maxima, side tables, caret
+// slope) for a font in the class the byte-level model covers so far: TrueType outlines of simple
+// glyphs, no glyph names, no cmap, no layout tables, at least one timestamp.
+func f1FileArgs(font *sfnt.Font) (string, bool) {
+	o, ok := font.Outlines.(*glyf.Outlines)
+	if !ok || o.Names != nil || font.CMapTable != nil || font.Gsub != nil || font.Gpos != nil || font.Gdef != nil ||
+		(font.CreationTime.IsZero() && font.ModificationTime.IsZero()) || o.Maxp == nil || len(o.Glyphs) > 40 {
+		return "", false
+	}
+	var gl []string
+	for _, g := range o.Glyphs {
+		if g == nil {
+			gl = append(gl, "-")
+			continue
+		}
+		sg, ok := g.Data.(glyf.SimpleGlyph)
+		if !ok {
+			return "", false
+		}
+		gl = append(gl, fmt.Sprintf("%d.%d.%d.%d.%d.%s", uint16(g.LLx), uint16(g.LLy), uint16(g.URx), uint16(g.URy),
+			uint16(sg.NumContours), hx(sg.Encoded)))
+	}
+	m := o.Maxp
+	mx := []int{int(m.MaxPoints), int(m.MaxContours), int(m.MaxCompositePoints), int(m.MaxCompositeContours), int(m.MaxZones),
+		int(m.MaxTwilightPoints), int(m.MaxStorage), int(m.MaxFunctionDefs), int(m.MaxInstructionDefs), int(m.MaxStackElements),
+		int(m.MaxSizeOfInstructions), int(m.MaxComponentElements), int(m.MaxComponentDepth)}
+	var names []string
+	for k := range o.Tables {
+		names = append(names, k)
+	}
+	sort.Strings(names)
+	var tabs []string
+	for _, k := range names {
+		tabs = append(tabs, f1HexS(k)+":"+hx(o.Tables[k]))
+	}
+	// caret slope: float trigonometry inside hmtx.Encode; taken from the hhea table it writes
+	hhea, _ := (&hmtx.Info{CaretAngle: font.ItalicAngle / 180 * math.Pi}).Encode()
+	rise := int16(uint16(hhea[18])<<8 | uint16(hhea[19]))
+	run := int16(uint16(hhea[20])<<8 | uint16(hhea[21]))
+	return fmt.Sprintf("gly=%s mx=%s tabs=%s rr=%d:%d", strings.Join(gl, ","), f1IntsStr(mx), strings.Join(tabs, ","), rise, run), true
+}
+
+// f1GenFileFont draws a font of that class.
+func f1GenFileFont(c *Ctx) f1FontRecipe {
+	rec := f1GenFont(c)
+	for !rec.font.IsGlyf() || rec.font.NumGlyphs() > 40 || (rec.font.CreationTime.IsZero() && rec.font.ModificationTime.IsZero()) {
+		rec = f1GenFont(c)
+	}
+	if rec.rgl%3 == 1 {
+		rec.rgl++ // a glyph recipe without glyph names
+	}
+	n := rec.font.NumGlyphs()
+	old := rec.font.Outlines.(*glyf.Outlines)
+	o := f1BuildOutlines('g', n, rec.rgl).(*glyf.Outlines)
+	o.Widths = old.Widths
+	rec.font.Outlines = o
+	rec.rcm, rec.rgsub, rec.rgpos, rec.rgdef = "-", "-", "-", "-"
+	rec.font.CMapTable, rec.font.Gsub, rec.font.Gpos, rec.font.Gdef = nil, nil, nil, nil
+	return rec
+}
+
 // f1EmitFont emits every stream for one constructed font.
 func f1EmitFont(c *Ctx, rec f1FontRecipe, withDerive bool) {
 	args := f1LineOfFont(rec.font, rec.rgl, rec.rcm, rec.rgsub, rec.rgpos, rec.rgdef)
@@ -1862,6 +1942,10 @@ func f1EmitFont(c *Ctx, rec f1FontRecipe, withDerive bool) {
 			// the property's first clause as a direct predicate: Read(Write(F)) = nf F
 			c.Case(Direct, "font.nf", args, true)
 		}
+	}
+	if extra, ok := f1FileArgs(rec.font); ok {
+		c.Case(Verdict, "font.file", args+" "+extra, true)
+		c.Stat("font.file class", "TrueType, no cmap/names/layout")
 	}
 	f1EmitFixed(c, args)
 	reps := 3
